@@ -1,6 +1,7 @@
 import H264.RbspInit
 import H264.DecodeNal
 import H264.DecodeNalSpec
+import H264.ByteProof
 /-! # C02 — RBSP extraction removes exactly the emulation-prevention bytes, for any chunking
 
 Model: `Rbsp.BR` mirrors `rbsp::ByteReader` at call level (`try_fill_buf_slow` scanner, `fill_buf`, `consume`, `read`)
@@ -99,5 +100,14 @@ example : (unesc ([0x65, 0x01, 0x00, 0x00, 0x03, 0x01, 0x00, 0x00, 0x03].drop 1)
   simp [unesc, okAfter03]
 example : Inv (initReader [[0x65, 0x01, 0x00], [0x00], [0x03, 0x01]] false 1 128) :=
   initReader_inv _ _ _ _ (by simp) (by omega)
+
+/-- **call-level model = real code on a complete small domain, by proof**: for every payload of length 0…5 over
+{00, 01, 03, 04} behind a header byte (1 365 NALs: every escape, every forbidden sequence, every trailing-zero shape that
+fits), the model's `decodeNal` returns what the real `decode_nal` returned in this run's graph (accepted or not, borrowed or
+owned, the bytes), and the model `ByteReader` drained by single-byte reads delivers what the real one delivered -/
+theorem model_decode_nal_reproduces_code :
+    (ByteProof.words [0x00, 0x01, 0x03, 0x04]).map ByteProof.decodeRow = Generated.decodeNalRows := ByteProof.decodeNal_model_eq_code
+theorem model_byte_reader_reproduces_code :
+    (ByteProof.words [0x00, 0x01, 0x03, 0x04]).map ByteProof.drainRow = Generated.rbspDrainRows := ByteProof.byteReader_model_eq_code
 
 end C02
